@@ -166,6 +166,8 @@ def render_release(rf):
     lines = ["Origin: t", "Suite: s"]
     if rf["byhash"]:
         lines.append("Acquire-By-Hash: yes")
+    elif rf.get("explicit_no"):
+        lines.append("Acquire-By-Hash: no")     # the field present with a value other than yes
     for t in rf["order"]:
         es = [e for e in rf["entries"] if e[0] == t]
         if not es:
@@ -246,4 +248,5 @@ def gen_release(rng, names, byhash=None):
             if rng.random() < 0.85:
                 entries.append((t, "%s%08x" % (t[:2].lower(), rng.getrandbits(32)), sizes[n], n))
     rng.shuffle(entries)
-    return {"byhash": rng.random() < 0.5 if byhash is None else byhash, "order": order, "entries": entries}
+    return {"byhash": rng.random() < 0.5 if byhash is None else byhash, "explicit_no": rng.random() < 0.4,
+            "order": order, "entries": entries}
